@@ -71,6 +71,7 @@ def _case(dtype, shape, block, chans, gen=None):
 
 
 LAYOUTS = ("C", "F", "xyzc-view", "strided")
+_ENCODERS = {}
 
 
 def _lay(arr, layout):
@@ -106,7 +107,15 @@ def _evaluate(col, dtype, shape, block, chans, gen=None, layout="C"):
     nontriv = 1 if (gx * gy * gz > 1 or
                     any(len(set(ch)) > 1 for ch in chans)) else 0
     try:
-        enc = CompressedSegmentationEncoder(dtype, nch, list(block))
+        # one encoder object serves many chunks (as in a conversion run):
+        # results must not depend on what it encoded before
+        key = (dtype, nch, tuple(block))
+        enc = _ENCODERS.get(key)
+        if enc is None:
+            if len(_ENCODERS) > 64:
+                _ENCODERS.clear()
+            enc = _ENCODERS[key] = CompressedSegmentationEncoder(
+                dtype, nch, list(block))
         buf = enc.encode(arr)
     except Exception as exc:
         col.ev(1, nontriv, "encode-exception")
